@@ -330,9 +330,11 @@ Inductive rx_event : Type :=
 | EvGoroutineRuns (n : nat)             (* the n-th pending receive goroutine reaches cacheTransferringKeys *)
 | EvTransferEnds (n : nat)              (* the n-th receive goroutine returns: deferred deleteTransferringContentKeys(contentKeys),
                                            contentKeys = the keys THAT offer accepted *)
-| EvOfferV0 (keys : list bytes).        (* an OFFER from a version-0 peer: filterContentKeysV0 does not consult the marks
+| EvOfferV0 (keys : list bytes)         (* an OFFER from a version-0 peer: filterContentKeysV0 does not consult the marks
                                            (the property says "not, in version 1, already being received"), but its receive
                                            goroutine sets and clears them like any other *)
+| EvOfferNoSlot (keys : list bytes).    (* an OFFER (either version) answered without a free inbound slot: every key declined,
+                                           no goroutine, nothing marked and nothing un-marked *)
 
 Record rx_state : Type := {
   rx_marked : list bytes;               (* transferringKeyCache *)
@@ -368,5 +370,7 @@ Definition rx_step (sync_mark : bool) (s : rx_state) (e : rx_event) : rx_state :
       {| rx_marked := if sync_mark then keys ++ rx_marked s else rx_marked s;
          rx_pending := rx_pending s ++ [keys];
          rx_accepted := keys :: rx_accepted s |}
+  | EvOfferNoSlot _ =>
+      {| rx_marked := rx_marked s; rx_pending := rx_pending s ++ [[]]; rx_accepted := [] :: rx_accepted s |}
   end.
 Definition rx_run (sync_mark : bool) (evs : list rx_event) : rx_state := fold_left (rx_step sync_mark) evs rx_init.
